@@ -60,7 +60,7 @@ var totalSmall = overlayTest{Name: "snap-total-small", Level: "bounded", Src: "c
 	Bound: "bounded stand-in for the ring assembly (kmpDeduplicate, splitRing, dedupeInnersOuters, matchInnersToPolygons, RemoveSequences) and the no-points-found guard: the real SnapPolygon on every single ring of 1..5 (quick) / 1..6 (thorough) vertices over a 3x3 lattice of pixel centres, corners and border points, 3 id sets x 4 flag combinations, plus 20000 / 300000 random polygons of up to 3 rings; a panic or a run over 5 s fails"}
 
 var ringAssembly = overlayTest{Name: "ring-assembly-small-alphabet", Level: "bounded", Src: "c06_ring_assembly_test.go", PkgRel: "snap", Run: "^TestGvcC06RingAssembly$",
-	Bound: "bounded stand-in for the ring assembly: the real cleanupNewRing (kmpDeduplicate + splitRing) and kmpDeduplicate on EVERY ring without equal neighbours of length 0..15 (quick) / 0..18 (thorough) over 3 pixel centres and 0..10 / 0..12 over 4, as outer and as inner ring, plus 100000 / 1500000 pseudo-random zig-zag rings of 4..40 vertices over 6 points and 600000 / 8000000 word rings (a random word repeated and reversed, 8..47 vertices); per input: no panic, returns within 5 s, every returned vertex is an input vertex"}
+	Bound: "bounded stand-in for the ring assembly: the real cleanupNewRing (kmpDeduplicate + splitRing) and kmpDeduplicate on EVERY ring without equal neighbours of length 0..15 (quick) / 0..17 (thorough) over 3 pixel centres and 0..10 / 0..11 over 4, as outer and as inner ring, plus 100000 / 800000 pseudo-random zig-zag rings of 4..40 vertices over 6 points and 600000 / 5000000 word rings (a random word repeated and reversed, 8..47 vertices); per input: no panic, returns within 5 s, every returned vertex is an input vertex"}
 
 var c05Rings = overlayTest{Name: "ring-clauses-small", Level: "bounded", Src: "c05_rings_small_test.go", PkgRel: "snap", Run: "^TestGvcC05RingsSmall$",
 	Bound: "bounded stand-in for the ring clauses of C05 (ring assembly, outside the verifier's reach): the real SnapPolygon on every single ring of 3..5 (quick) / 3..6 (thorough) vertices over a 3x3 lattice of pixel centres and on 30000 / 400000 random polygons of 1..3 rings over a 6x6 lattice, id sets {1} and {0,1}, all four flag combinations; per returned polygon: orientation of rings with non-zero area, no repeated closing vertex, no equal neighbours, no vertex visited twice, at least three vertices without keep-points-and-lines, and the with/without relation of that option. Plus 4000 / 60000 spiky rings each on NetherlandsRDNewQuad id 14 and WebMercatorQuad id 17 for the clauses decidable exactly on floats (no vertex twice, no equal neighbours, at least three vertices): the domain of the repaired defect F4"}
